@@ -213,6 +213,21 @@ func (r *Raw) Send(sid uint32, msg []byte) error {
 	return nil
 }
 
+// SendFrame writes one hand-made frame: the header may lie about the size
+func (r *Raw) SendFrame(sid uint32, payload []byte, final byte, claimSize int) error {
+	buf := make([]byte, hdrSize, hdrSize+len(payload))
+	binary.BigEndian.PutUint32(buf, uint32(claimSize))
+	binary.BigEndian.PutUint32(buf[4:], sid)
+	buf[8] = final
+	buf = append(buf, payload...)
+	r.Frames++
+	if _, err := r.C.Write(buf); err != nil {
+		r.Dead = true
+		return err
+	}
+	return nil
+}
+
 // Recv reads frames until a complete message for sid arrived.
 // Returns nil, err when the connection was closed or timed out.
 func (r *Raw) Recv(sid uint32, timeout time.Duration) ([]byte, error) {
